@@ -268,6 +268,42 @@ __CPROVER_assigns(SCHED_FRAME)
 #define LOCKS_MATCH(l) (g_v_pu_mtx.held == (((l)->owns && (l)->m == MTX_PU_V) ? 1 : 0) && \
                         g_o_pu_mtx.held == (((l)->owns && (l)->m == MTX_PU_O) ? 1 : 0))
 static struct ulock vx_lk;              /* the caller's (default constructed) unique_lock */
+/* ---- the tolerance ("Increase allowed state if no threads are available for scheduling", added after seeded change C02-7 was missed).
+ * A round of the non-fallback search visits the workers in ring order; a visited worker is either selected, or its word is read
+ * and compared with the tolerance (and counted when it is within it -- also when its PU mutex could not be try-locked: somebody
+ * else is scheduling to it right now, it is NOT unavailable).  The tolerance is raised only after a round in which no visited
+ * worker was left uncompared and none was found within the tolerance: otherwise a task is queued on a sleeping worker while an
+ * awake one exists. */
+static bool g_in_round;         /* inside a round of the non-fallback search */
+static bool g_v_pending;        /* the victim was visited in this round and has not been selected / had its word read since */
+static bool g_v_round_allowed;  /* the victim's word was compared with the tolerance (not under its PU mutex) and found within it, in this round */
+static void vx_round_begin(void) { g_in_round = true; g_v_pending = false; g_v_round_allowed = false; }
+static struct vx_mtx *vx_visit(struct scheduler *s, size_t i)
+{
+  if (g_in_round)
+  {
+    VX_ASSERT(!g_v_pending, "every worker visited in a round is selected or has its state word read before the search moves on (a worker whose PU mutex is busy is still a candidate for the tolerance count)");
+    g_v_pending = (i == g_v);
+  }
+  return vx_pu_mtx(s, i);
+}
+static runtime_state_t *vx_state_sel(struct scheduler *s, size_t i)
+{
+  if (g_in_round && i == g_v) g_v_pending = false;
+  return vx_state(s, i);
+}
+static bool vx_within_tolerance(struct scheduler *s, size_t i, runtime_state_t tol, struct ulock *l)
+{
+  bool within = atomic_load(vx_state_sel(s, i)) <= tol;
+  if (g_in_round && i == g_v && !l->owns && within) g_v_round_allowed = true;
+  return within;
+}
+static void vx_escalate(void)
+{
+  VX_ASSERT(!g_v_pending, "the tolerance is raised only after a round that left no visited worker uncompared");
+  VX_ASSERT(!g_v_round_allowed, "the tolerance is raised only if no worker was found within it in this round (a worker that merely could not be try-locked counts as available)");
+}
+#define SEL_GHOSTS g_in_round, g_v_pending, g_v_round_allowed
 //@FUNC
 size_t select_active_pu(struct scheduler *self, struct ulock *l, size_t num_thread, bool allow_fallback)
 __CPROVER_requires(S_PRE_SCHED(self) && l == &vx_lk && !l->owns && l->m == MTX_NONE)
@@ -287,7 +323,7 @@ __CPROVER_ensures((!allow_fallback && l->owns) ==> (l->m == PU_MTX_OF(__CPROVER_
     (__CPROVER_return_value == g_v ==> (g_reads >= 1 && g_last_read <= runtime_state_stopping))))
 /* never writes a state word; holds exactly the mutex l owns */
 __CPROVER_ensures(lin_count == 0 && LOCKS_MATCH(l))
-__CPROVER_assigns(SCHED_FRAME, g_yields, vx_lk)
+__CPROVER_assigns(SCHED_FRAME, g_yields, vx_lk, SEL_GHOSTS)
 //@LIFT body
 #endif
 
@@ -326,6 +362,7 @@ void harness(void)
 #endif
 #ifdef U_SELECT_PU
   bool fb = nondet_bool();
+  g_in_round = false; g_v_pending = false; g_v_round_allowed = false;
   vx_lk.m = MTX_NONE;
   vx_lk.owns = false;
   size_t r = select_active_pu(&s, &vx_lk, core, fb);
